@@ -297,8 +297,24 @@ CLAIMS.update({
                 'in flight" empties both queues and all buffered amounts within pending chunks + 1 <= pending bytes + 1 rounds, for every window the SACKs advertise and every peek choice: '
                 'no reachable sender state is a dead end), C02_recovers_faithful (the same with a peer whose SACK is earned: each round = T3 expiry, gather, cumulative SACK for exactly the longest prefix '
                 'of the queue a peer that keeps nothing beyond its cumulative point can have - gap-acked before, skipped by this gather\'s FORWARD-TSN, or put on the wire by this gather; '
-                'in-flight + pending rounds suffice). NOT covered by theorems: timers really firing and goroutine wake-ups, the RECEIVER half (in the drain theorems the peer\'s SACK is '
-                'an input of the schedule), the composition over a network that eventually heals, the wall-clock bound. '
+                'in-flight + pending rounds suffice). '
+                'COMPOSED MODEL (proof, Props/C02net.lean on Model/NetSys.lean = sender model + history network + receiver model; helpers Proofs/NetSys/Live*.lean): the SACK is now the RECEIVER model\'s own - '
+                'truthfulSack = what createSelectiveAckChunk builds in the current receiver state (cumulative point of the receive queue, getMyReceiverWindowCredit, getGapAckBlocks). '
+                'C02_netsys_truthful_sack_accepted: in EVERY reachable NetSys state (any earlier loss, duplication, reordering, any earlier SACKs truthful or not, zero-window episodes, any T3s) that SACK is '
+                'never rejected by the validation of processSelectiveAck - it is processed or stale - because every TSN the receiver accepted was assigned by the sender (run invariant run_qb) and cumulative '
+                'ack point + in-flight = TSNs assigned (snd_idx); premises MTU < 2^30, fewer than 2^31 chunks written / in flight. healedRound = an explicit operation list computed from the state (accept backlog drained; T3 if '
+                'something is in flight; gather with free burst budget and FIFO selection; every chunk put on the wire delivered in order, one packet each; application accepts and reads everything readable; '
+                'ack interval; receiver gather; its truthful SACK processed by the sender). C02_netsys_round_progress_partial: a healed round never adds to pending + in flight and releases >= 1 chunk when the '
+                'receiver\'s cumulative point is ahead of the sender\'s when the SACK is built (Taken), after which the sender\'s cumulative ack point IS the receiver\'s. C02_netsys_drains_partial: n >= pending + in-flight '
+                'healed rounds, each starting with nothing outstanding or Taken, leave both sender queues empty, BufferedAmount() = 0 (per stream under the D9 premise); C02_netsys_delivered_prefix: C01 holds along the '
+                'rounds. PARTIAL: Taken is a hypothesis (decidable on the run); of the three facts it follows from only the sender one is proved (lowest outstanding chunk first on the wire whatever cwnd/rwnd: '
+                'C02_rtx_progress_partial, C02_probe_when_blocked); the receiver taking that chunk at zero window when it fills a gap or has credit after the application read (needs reassembly-level byte accounting) and the '
+                'invariant "a gap-acked chunk was really received" for sound SACK histories (soundSack / Honest) are stated, not proved; reads = writes at the end is evaluated on the example run only. '
+                'C02_netsys_stuck_witness (decide): with a receive buffer of two maximal chunks and a 3-chunk message the fault-free healed rounds NEVER deliver - acceptPayloadData drops the third chunk at a full buffer, the '
+                'incomplete message cannot be read, credit stays 0 - so "buffer >= one maximal chunk + application reads" is not enough; every message in progress must fit the receive buffer (maxMessageSize <= maxReceiveBufferSize; '
+                'true for the defaults 64 KiB / 1 MiB, not enforced by Config). '
+                'NOT covered by theorems: timers really firing and their back-off bounds (C19 gives the RTO clamp and the timer automaton; a healed round costs at most one T3 period <= rtoMax plus the 200 ms ack interval - prose only), '
+                'goroutine wake-ups, that the receiver gather emits exactly that SACK (C19recv), unordered / partially reliable / reset traffic, ALL fair schedules (this is one explicit fair schedule from every reachable state), the wall-clock bound. '
                 'SYSTEM LEVEL (exploration, synctest e2e): ' + CLAIMS['C02']['text'],
         'note': SENDER_NOTE + ' Premises of the drain theorems: fragment size <= maxPayloadSizeForMTU (CfgFit), peek returns a chunk of a non-empty queue (PickOk), fewer than 2^31 chunks queued. '
                 'The round bound is the worst case one chunk per round (cwnd at its floor or closed peer window); it does not use cwnd growth. ' + E2E_NOTE,
